@@ -147,6 +147,11 @@ def build(variant, want=None, verbose=False):
                     ex_ += sorted(os.path.basename(x) for x in _glob.glob(os.path.join(VERIF, "shim", s)))
                 else:
                     ex_.append(s)
+            if not ex_ or not all(os.path.exists(os.path.join(VERIF, "shim", s)) for s in ex_):
+                if want:
+                    sys.stderr.write("BUILD FAILED: sources of target %s are missing\n" % t)
+                    return 2
+                continue  # target not written yet
             expanded[t] = (ex_, ld, kind)
             for s in ex_:
                 if s not in shim_srcs:
